@@ -3,8 +3,7 @@
 //    files written to a temporary directory; an importer sees exactly the exported bindings under their external names,
 //    not the unexported ones; the library does not see the importer's definitions; redefining an imported name in the
 //    importer does not change what the library's own procedures do.
-//  * verif_native_library_instance_known: demonstrates the KNOWN FINDING library-instantiated-per-import: two libraries
-//    that import the same counter library see two counters.
+//    All imports of a library within one program refer to one instance (two importers of a counter library share it).
 
 fn write_libs(dir: &std::path::Path, files: &[(&str, &str)]) {
     let _ = std::fs::create_dir_all(dir);
@@ -46,6 +45,14 @@ fn verif_native_library_witness() {
     check(&["(import (peek))", "(get-outer)"], "error *", "a free name of a library is unbound");
     check(&["(import (uses))", "(define (helper) 'importer-helper)", "(call-helper)"], "value library-helper", "redefining a name in the importer does not change the library's own procedures");
     check(&["(import (bad))"], "error *", "exporting a name the library does not define is an error");
+    // all imports of a library within one program refer to ONE instance (fix e409057): two importers of a counter library share the counter
+    write_libs(&dir, &[
+        ("cnt.sld", "(define-library (cnt) (import (scheme base)) (export next) (begin (define n 0) (define (next) (set! n (+ n 1)) n)))"),
+        ("a.sld", "(define-library (a) (import (scheme base) (cnt)) (export a-next) (begin (define (a-next) (next))))"),
+        ("b.sld", "(define-library (b) (import (scheme base) (cnt)) (export b-next) (begin (define (b-next) (next))))"),
+    ]);
+    check(&["(import (a) (b))", "(a-next)", "(b-next)"], "value 2", "two importers of a library share its one instance");
+    check(&["(import (a) (b) (cnt))", "(a-next)", "(b-next)", "(next)", "(a-next)"], "value 4", "the importing program shares it too");
     let _ = std::fs::remove_dir_all(&dir);
     if bad.is_empty() {
         println!("VERIF-NATIVE: ok {} library programs: exactly the exported bindings are visible, under their external names, and the library's frame is its own", n);
@@ -54,19 +61,3 @@ fn verif_native_library_witness() {
     }
 }
 
-#[test]
-fn verif_native_library_instance_known() {
-    let dir = std::env::temp_dir().join(format!("verif-library-known-{}", std::process::id()));
-    write_libs(&dir, &[
-        ("cnt.sld", "(define-library (cnt) (import (scheme base)) (export next) (begin (define n 0) (define (next) (set! n (+ n 1)) n)))"),
-        ("a.sld", "(define-library (a) (import (scheme base) (cnt)) (export a-next) (begin (define (a-next) (next))))"),
-        ("b.sld", "(define-library (b) (import (scheme base) (cnt)) (export b-next) (begin (define (b-next) (next))))"),
-    ]);
-    let got = eval_all(&dir, &["(import (a) (b))", "(a-next)", "(b-next)"]);
-    let _ = std::fs::remove_dir_all(&dir);
-    if got == vec!["value ".to_string(), "value 1".to_string(), "value 2".to_string()] {
-        println!("VERIF-NATIVE: ok two importers of a counter library share one counter");
-    } else {
-        println!("VERIF-NATIVE: disagree (import (a) (b)) (a-next) (b-next) -> {:?}: both importers of (cnt) count from 1, i.e. each import evaluated the library body again (one shared instance would give 1 then 2)", got);
-    }
-}
